@@ -46,11 +46,8 @@ impl DownloadManifest {
         // cannot hold before reserving memory for it (an entry is at least an
         // encoding key, a 40-bit size and a priority byte, plus optional fields).
         let remaining = data.len().saturating_sub(cursor.position() as usize);
-        let min_entry_size = 16
-            + 5
-            + 1
-            + if header.has_checksum() { 4 } else { 0 }
-            + header.flag_size() as usize;
+        let min_entry_size =
+            16 + 5 + 1 + if header.has_checksum() { 4 } else { 0 } + header.flag_size() as usize;
         if header.entry_count() as usize > remaining / min_entry_size {
             return Err(DownloadError::EntryCountMismatch(
                 header.entry_count(),
